@@ -14,7 +14,7 @@ from concurrent.futures import ThreadPoolExecutor
 
 REPO = os.environ.get('VERIF_REPO', '/repo')
 VERIF = os.path.dirname(os.path.dirname(os.path.abspath(__file__)))
-WORK = os.path.join(VERIF, '.work')
+WORK = os.environ.get('VERIF_WORK') or os.path.join(VERIF, '.work')
 CLANG = shutil.which('clang++') or 'clang++'
 
 
